@@ -245,6 +245,16 @@ inline Sym min(const Sym& a, const Sym& b) {
   if (a.is_const() && b.is_const()) return Sym(a.c < b.c ? a.c : b.c);
   return Sym::node("(ite (<= " + a.term() + " " + b.term() + ") " + a.term() + " " + b.term() + ")");
 }
+inline Sym fmax(const Sym& a, const Sym& b) { return max(a, b); }
+inline Sym fmin(const Sym& a, const Sym& b) { return min(a, b); }
+template <class T, class = typename std::enable_if<std::is_arithmetic<T>::value>::type>
+inline Sym fmax(T a, const Sym& b) { return max(Sym(a), b); }
+template <class T, class = typename std::enable_if<std::is_arithmetic<T>::value>::type>
+inline Sym fmax(const Sym& a, T b) { return max(a, Sym(b)); }
+template <class T, class = typename std::enable_if<std::is_arithmetic<T>::value>::type>
+inline Sym fmin(T a, const Sym& b) { return min(Sym(a), b); }
+template <class T, class = typename std::enable_if<std::is_arithmetic<T>::value>::type>
+inline Sym fmin(const Sym& a, T b) { return min(a, Sym(b)); }
 inline bool isfinite(const Sym&) { return true; }  // reals are finite (stated assumption)
 inline bool isnan(const Sym&) { return false; }
 #ifdef VSYM_FP
